@@ -240,6 +240,12 @@ def check(prog, rep):
                         'coordinates on every call' % sorted(set(glob))[0]
             rep.add('P7-grid', impl, entry, 'grid %s = %s' % (g, tshow(got, 110)), impl.node.lineno, ok,
                     'x grid = the x coordinates tiled over the rows, y grid = the y coordinates repeated along the columns; ' + why)
+    # the metric functions are called on the padded grids: NaN coordinates must not be rejected
+    from .C19 import nan_guard_rule
+    pm = prog.module('proximity')
+    for nm in ('euclidean_distance', 'manhattan_distance', 'great_circle_distance'):
+        if nm in pm.funcs:
+            nan_guard_rule(prog, rep, pm.funcs[nm], 'P7-nan', entry)
     rep.floor('P7a', 2)
     rep.floor('P7b', 4)
     rep.floor('P7-grid', 4)
